@@ -358,8 +358,8 @@ Definition ut_tmatch (sel : str) : option (str -> bool) :=
   | None => None
   end.
 
-(* ---- RFC 6570 expansion (the specification side), string values ---- *)
-(* A value is a list of characters, each given by its UTF-8 bytes; an undefined variable is None. *)
+(* ---- RFC 6570 expansion (the specification side), string and list values ---- *)
+(* A string is a list of characters, each given by its UTF-8 bytes. *)
 Definition uchar := str.
 Definition hexd (n : N) : N := if N.ltb n 10 then 48 + n else 55 + n.
 Definition pct (b : N) : str := [37; hexd ((b / 16) mod 16); hexd (b mod 16)].
@@ -394,7 +394,12 @@ Definition esc_for (o : top) (v : list uchar) : str := if op_allow_r o then esc_
 Definition take_prefix (m : N) (v : list uchar) : list uchar :=
   if N.eqb m 0 then v else firstn (N.to_nat m) v.
 
-(* one defined variable *)
+(* A variable is undefined, a string, or a list of strings (RFC 6570 section 2.3; a list without members is
+   undefined, section 3.2.1; a prefix modifier does not apply to a list, section 2.4.1: no expansion is defined,
+   the variable is skipped here). Associative arrays are not modelled. *)
+Inductive uvalue := VStr (v : list uchar) | VList (l : list (list uchar)).
+
+(* one defined string variable *)
 Definition expand_var (o : top) (vs : varspec) (v : list uchar) : str :=
   if op_named o then
     match v with
@@ -403,9 +408,6 @@ Definition expand_var (o : top) (vs : varspec) (v : list uchar) : str :=
     end
   else esc_for o (take_prefix (vs_maxlen vs) v).
 
-Definition defined_items (o : top) (vars : list varspec) (env : str -> option (list uchar)) : list str :=
-  flat_map (fun vs => match env (vs_name vs) with Some v => [expand_var o vs v] | None => [] end) vars.
-
 Fixpoint join_sep (sep : N) (items : list str) : str :=
   match items with
   | [] => []
@@ -413,23 +415,42 @@ Fixpoint join_sep (sep : N) (items : list str) : str :=
   | x :: l => x ++ sep :: join_sep sep l
   end.
 
-Definition expand_expr (o : top) (vars : list varspec) (env : str -> option (list uchar)) : str :=
+(* the items one variable contributes: none, one, or - an exploded list - one per member *)
+Definition var_items (o : top) (vs : varspec) (val : option uvalue) : list str :=
+  match val with
+  | None => []
+  | Some (VStr v) => [expand_var o vs v]
+  | Some (VList []) => []
+  | Some (VList l) =>
+      if negb (N.eqb (vs_maxlen vs) 0) then []
+      else if vs_explode vs then
+        map (fun m => if op_named o
+                      then match m with [] => vs_name vs ++ op_ifemp o | _ => vs_name vs ++ [61] ++ esc_for o m end
+                      else esc_for o m) l
+      else [let j := join_sep 44 (map (esc_for o) l) in
+            if op_named o then match j with [] => vs_name vs ++ op_ifemp o | _ => vs_name vs ++ [61] ++ j end else j]
+  end.
+
+Definition defined_items (o : top) (vars : list varspec) (env : str -> option uvalue) : list str :=
+  flat_map (fun vs => var_items o vs (env (vs_name vs))) vars.
+
+Definition expand_expr (o : top) (vars : list varspec) (env : str -> option uvalue) : str :=
   match defined_items o vars env with
   | [] => []
   | items => match op_first o with Some f => f :: join_sep (op_sep o) items | None => join_sep (op_sep o) items end
   end.
 
-Definition expand_part (env : str -> option (list uchar)) (p : part) : str :=
+Definition expand_part (env : str -> option uvalue) (p : part) : str :=
   match p with PLit s => s | PExpr o vars => expand_expr o vars env end.
 
-Definition ut_expand (ps : list part) (env : str -> option (list uchar)) : str := flat_map (expand_part env) ps.
+Definition ut_expand (ps : list part) (env : str -> option uvalue) : str := flat_map (expand_part env) ps.
 
 (* ---- what the correspondence check evaluates (driver URITPL) ---- *)
 (* selector, whether the library parsed it, whether the expression compiled, then (topic, MatchString) pairs and the
    answers of the hub's own matcher (Subscriber.MatchTopics through a fresh store) *)
 Record ut_case := { uc_sel : str; uc_parsed : bool; uc_compiled : bool;
                     uc_topics : list (str * bool); uc_hub : list bool;
-                    (* topics the driver built as RFC 6570 expansions for string values: must match *)
+                    (* topics the driver built as RFC 6570 expansions for string and list values: must match *)
                     uc_expansions : list str }.
 
 Definition ut_model_parsed (c : ut_case) : bool := match ut_parse (uc_sel c) with Some _ => true | None => false end.
